@@ -1,6 +1,7 @@
 package rlwe
 
 import (
+	"math/big"
 	"github.com/tuneinsight/lattigo/v6/ring"
 	"math/bits"
 )
@@ -139,4 +140,49 @@ func VerifH_C19_ParametersLiteralDescribesTheParameters() {
 		vAssert(same, c.name+"-literal-carries-the-moduli-and-the-default-scale")
 	}
 	vCover("C19-literal-reached")
+}
+
+// The overflow margins the lazy accumulations rely on: QiOverflowMargin(level) = floor(2^64 / max(q_0..q_level)) (the
+// LARGEST prime at or below the level, not the prime of the level), PiOverflowMargin likewise; chains whose primes
+// grow, shrink and alternate.
+func VerifSetup_MarginParams(i int) Parameters {
+	lits := []ParametersLiteral{
+		{LogN: 4, Q: []uint64{2305843009213616129, 2305843009213554689, 1073479681, 12289}, P: []uint64{576460752303419393, 257}},
+		{LogN: 4, Q: []uint64{12289, 1073479681, 2305843009213616129}, P: []uint64{257, 576460752303419393}},
+		{LogN: 4, Q: []uint64{1073479681, 2305843009213616129, 12289, 2305843009213554689}, P: []uint64{769}},
+	}
+	p, err := NewParametersFromLiteral(lits[i])
+	if err != nil {
+		panic(err)
+	}
+	return p
+}
+
+func VerifH_C19_OverflowMargins() {
+	two64 := new(big.Int).Lsh(big.NewInt(1), 64)
+	for i := 0; i < 3; i++ {
+		p := VerifSetup_MarginParams(i)
+		tag := "chain" + vItoa(i)
+		for kind, mods := range [][]uint64{p.Q(), p.P()} {
+			var mx uint64
+			for level, q := range mods {
+				if q > mx {
+					mx = q
+				}
+				want := new(big.Int).Quo(two64, new(big.Int).SetUint64(mx)).Int64()
+				got := p.QiOverflowMargin(level)
+				name := "-QiOverflowMargin"
+				if kind == 1 {
+					got = p.PiOverflowMargin(level)
+					name = "-PiOverflowMargin"
+				}
+				// (the library computes the quotient in float64: exact up to 2^-52 relative; what matters is that
+				// `got` values below the largest prime add up without wrapping, and that the margin is not understated)
+				sum := new(big.Int).Mul(big.NewInt(int64(got)), new(big.Int).SetUint64(mx-1))
+				vAssert(got > 0 && sum.Cmp(two64) < 0, tag+name+"-many-values-below-the-largest-prime-at-or-below-the-level-do-not-overflow")
+				vAssert(int64(got) >= want-want>>50-1, tag+name+"-is-not-understated")
+			}
+		}
+	}
+	vCover("C19-margins-reached")
 }
